@@ -42,8 +42,37 @@
 (* over-approximation, used for the exhaustive design check).  With Stepwise =     *)
 (* TRUE the environment acts only when the SDK is quiescent (the discipline   *)
 (* of the scenario harness: synctest.Wait() after every action); the only     *)
-(* exception is the race step TickRace(k): time advances to an instant at     *)
+(* exception is the race step TickRace(k, d): time advances to an instant at     *)
 (* which a timer is due and a change is made at that same instant.            *)
+(*                                                                            *)
+(* Feature sets and how the listChanged capability comes about                *)
+(* (Server.capabilities 615-662, shouldSendListChangedNotification 805-832,   *)
+(* allowedSubscriptions 1282-1298).  size[k] is the number of features of     *)
+(* kind k that are registered; a change has a DIRECTION:                      *)
+(*   "add"   one feature more (AddTool ...),                                  *)
+(*   "rm"    one feature less (RemoveTools(x)); at size 1 it EMPTIES the set, *)
+(*   "clear" every feature of the kind is removed by one call                 *)
+(*           (RemoveTools(x, y, ...)),                                        *)
+(*   "mod"   an addition, or the removal of a feature that an earlier "mod"   *)
+(*           added (the harness picks): the set stays non-empty and size[k]   *)
+(*           is not moved (configurations use either "mod" alone - the sets   *)
+(*           never become empty - or the exact directions).                   *)
+(* CapMode[n] says where the capability for notification n comes from:        *)
+(*   "fixed"    advertised whatever the sets contain: an explicit             *)
+(*              ServerOptions.Capabilities entry with listChanged, or the     *)
+(*              HasTools / HasPrompts / HasResources options;                 *)
+(*   "inferred" nothing configured: advertised (with listChanged) exactly     *)
+(*              while a feature of one of its kinds is registered;            *)
+(* n \in CapOff is the explicit entry with listChanged = false.               *)
+(* What a session is TOLD is the value at its handshake (initialize result /  *)
+(* the server's answer to its subscriptions/listen request): told[s][n].      *)
+(* A session that was told listChanged is owed the notifications from then on *)
+(* - also for the change that empties the set, and for those after it - and a *)
+(* session that was not told is owed none (a legacy one may still be sent     *)
+(* them).  The server itself decides on the CONFIGURED capability (SendGate =  *)
+(* "configured": everything but an explicit listChanged = false sends);       *)
+(* SendGate = "effective" is the defect class "decide on the capability as it *)
+(* would be advertised now, after the change" (sensitivity witness only).     *)
 EXTENDS Integers, Sequences, FiniteSets, TLC
 
 CONSTANTS
@@ -56,11 +85,22 @@ CONSTANTS
   Uris,         \* subscribable resources
   Want,         \* modern session -> notification names it listens for (its *ListChangedHandler options)
   CapOff,       \* notification names whose listChanged capability is disabled
+  CapMode,      \* notification name -> "fixed" | "inferred": where its capability comes from (unless in CapOff)
+  InitSize,     \* kind -> number of features registered when the server starts
+  MaxSize,      \* bound on the size of a feature set
+  Dirs,         \* directions of change the environment uses: {"mod"}, or a subset of {"add", "rm", "clear"}
+  SendGate,     \* "configured" = the code; "effective" = defect class (the timer is armed only if the capability would be
+                \* advertised after the change), used by the sensitivity witness only
   TTLPos,       \* results carry a positive TTL (TRUE) or ttl 0 (FALSE)
   D, MaxTime,   \* debounce delay in ticks; last instant
   MaxChanges, MaxUpdates, MaxCalls,
   GenCheck,     \* repair switch: TRUE = a fill is dropped when the cache was invalidated after the request was issued
                 \* (methodCache.gen / putIfCurrent, f71bafa); FALSE = the behaviour before the repair (unconditional put)
+  ColdBump,     \* TRUE = the code: an invalidation bumps the generation of the method cache whether or not anything is cached
+                \* (methodCache.invalidate / invalidateKey); FALSE = defect class "nothing cached, nothing to do": the bump is
+                \* skipped when the list cache of the kind holds no page / the read cache holds nothing under the URI, so a
+                \* fill that is in flight from an EMPTY cache (first call ever, or first call after an invalidation) across
+                \* the notification is put afterwards (sensitivity witnesses only)
   ListenOwns,   \* repair switch: TRUE = a finished subscriptions/listen request removes only the list-changed
                 \* subscriptions it registered itself (5eb4542); FALSE = before the repair it removed the session's
                 \* entries from all three maps, whichever listen request had made them
@@ -81,6 +121,7 @@ CONSTANTS
 VARIABLES
   now,
   ver,      \* Items -> version (number of changes of a kind / content version of a URI)
+  size,     \* kind -> number of features registered
   ref,      \* notif -> "nil" | "armed" | "idle": the timer referenced by pendingNotifications[n]
   refDue,   \* notif -> instant at which the referenced timer fires (0 unless armed)
   orph,     \* notif -> bag (instant -> count) of armed timers whose reference was dropped
@@ -101,14 +142,18 @@ VARIABLES
   call,     \* session -> slot -> list/read call
   handled,  \* session -> item -> newest version announced by a notification its user handler has seen
   gates,    \* held gates: <<"inv"|"usr"|"put"|"unsub", session>>
-  race,     \* kind whose change is racing the timers of the current instant ("" = none)
+  race,     \* <<kind, direction>> of the change that is racing the timers of the current instant (<<>> = none)
   budget,   \* [chg, upd] counters
+  told,     \* ghost: session -> notif -> the server told the session at its handshake that it sends n (listChanged)
   ent,      \* ghost: session -> notif -> entitled at the last change of notif and ever since
   got,      \* ghost: session -> notif -> its user handler saw a notification sent after the last change
   bad       \* ghost: names of the immediate clauses that a send violated
 
 vars == <<now, ver, ref, refDue, orph, cbs, sess, lsub, rsub, usub, pun, chan, nq, hnd, cache, cgen, call, handled,
-          gates, race, budget, ent, got, bad, lst>>
+          gates, race, budget, ent, got, bad, lst, size, told>>
+
+ASSUME Dirs = {"mod"} \/ Dirs \subseteq {"add", "rm", "clear"}
+ASSUME SendGate \in {"configured", "effective"}
 
 Modern == Sessions \ Legacy
 Notifs == {NotifOf[k] : k \in Kinds}
@@ -133,20 +178,28 @@ UriSeqs == {q \in UNION {[1..n -> Uris] : n \in 1..Cardinality(Uris)} : \A i, j 
 \* the server is still working on a listen request of s that names u (neither acknowledged nor failed yet)
 Pending(s, u) == lst[s].st = "run" /\ u \in Range(lst[s].uris)
 
+\* the listChanged capability for n as the server advertises it while its feature sets have the sizes sz
+Adv(n, sz) == CapOn(n) /\ (CapMode[n] = "fixed" \/ \E k \in KindsOf(n) : sz[k] > 0)
+
 \* entitlement as the protocol defines it (what the client asked for and was granted), not what the
-\* server's maps happen to contain
-EntLC(s, n) == sess[s] = "on" /\ (s \in Legacy \/ (n \in Want[s] /\ CapOn(n)))
+\* server's maps happen to contain: the session was told at its handshake that the server sends n, and a
+\* 2026-07-28 session asked for it
+EntLC(s, n) == sess[s] = "on" /\ told[s][n] /\ (s \in Legacy \/ n \in Want[s])
+\* a legacy session that was not told may still be sent n (it is not owed it)
+MaySend(s, n) == sess[s] = "on" /\ (s \in Legacy \/ EntLC(s, n))
 EntUp(s, u) == sess[s] = "on" /\ u \in usub[s]
 
 Init ==
   /\ now = 0
   /\ ver = [i \in Items |-> 0]
+  /\ size = InitSize
+  /\ told = [s \in Sessions |-> [n \in Notifs |-> s \in InitOn /\ Adv(n, InitSize)]]
   /\ ref = [n \in Notifs |-> "nil"]
   /\ refDue = [n \in Notifs |-> 0]
   /\ orph = [n \in Notifs |-> [d \in Instants |-> 0]]
   /\ cbs = [n \in Notifs |-> 0]
   /\ sess = [s \in Sessions |-> IF s \in InitOn THEN "on" ELSE "new"]
-  /\ lsub = [n \in Notifs |-> {s \in InitOn \cap Modern : n \in Want[s] /\ CapOn(n)}]
+  /\ lsub = [n \in Notifs |-> {s \in InitOn \cap Modern : n \in Want[s] /\ Adv(n, InitSize)}]
   /\ rsub = [u \in Uris |-> InitSub]
   /\ usub = [s \in Sessions |-> IF s \in InitSub THEN Uris ELSE {}]
   /\ pun = {}
@@ -158,7 +211,7 @@ Init ==
   /\ call = [s \in Sessions |-> [c \in Slots |-> Idle]]
   /\ handled = [s \in Sessions |-> [i \in Items |-> -1]]
   /\ gates = {}
-  /\ race = ""
+  /\ race = <<>>
   /\ budget = [chg |-> 0, upd |-> 0, lst |-> 0]
   /\ lst = [s \in Sessions |-> NoListen]
   /\ ent = [s \in Sessions |-> [n \in Notifs |-> FALSE]]
@@ -184,18 +237,31 @@ SdkEnabled ==
 
 ClientBusy == \E s \in Sessions : chan[s] # <<>> \/ nq[s] # <<>> \/ hnd[s].stage # "none"
 SrvOK == ~ClientFirst \/ ~ClientBusy
-EnvOK == race = "" /\ (~Stepwise \/ ~SdkEnabled) /\ SrvOK
+EnvOK == race = <<>> /\ (~Stepwise \/ ~SdkEnabled) /\ SrvOK
 InFlight(s) == chan[s] # <<>> \/ nq[s] # <<>> \/ hnd[s].stage # "none" \/ lst[s].st = "run"
                \/ \E c \in Slots : call[s][c].st \in {"req", "sent", "arrived"}
 
 \* ---------------------------------------------------------------------------
 \* server: feature changes and the debounce timer (changeAndNotify)
 
-DoChange(k) ==
-  LET n == NotifOf[k] IN
+\* the change is a change: removing nothing is none (changeAndNotify's change() reports false)
+CanChange(k, d) ==
+  /\ d \in Dirs
+  /\ CASE d = "mod" -> size[k] > 0
+       [] d = "add" -> size[k] < MaxSize
+       [] d = "rm" -> size[k] > 0
+       [] d = "clear" -> size[k] > 1     \* at size 1 it is "rm"
+NewSize(k, d) == CASE d = "mod" -> size[k] [] d = "add" -> size[k] + 1 [] d = "rm" -> size[k] - 1 [] d = "clear" -> 0
+
+DoChange(k, d) ==
+  LET n == NotifOf[k]
+      sz == [size EXCEPT ![k] = NewSize(k, d)]
+      \* shouldSendListChangedNotification, evaluated under s.mu after the mutation
+      send == IF SendGate = "configured" THEN CapOn(n) ELSE Adv(n, sz) IN
   /\ ver' = [ver EXCEPT ![k] = @ + 1]
+  /\ size' = sz
   /\ budget' = [budget EXCEPT !.chg = @ + 1]
-  /\ IF CapOn(n)
+  /\ IF send
        THEN IF OnSessions = {}
               THEN /\ ref' = [ref EXCEPT ![n] = "nil"]       \* Stop and forget; a callback already started still runs
                    /\ refDue' = [refDue EXCEPT ![n] = 0]
@@ -205,24 +271,24 @@ DoChange(k) ==
   /\ ent' = [s \in Sessions |-> [ent[s] EXCEPT ![n] = EntLC(s, n)]]
   /\ got' = [s \in Sessions |-> [got[s] EXCEPT ![n] = FALSE]]
 
-Change(k) ==
-  /\ EnvOK /\ budget.chg < MaxChanges
-  /\ DoChange(k)
-  /\ UNCHANGED <<now, orph, cbs, sess, lsub, rsub, usub, pun, chan, nq, hnd, cache, cgen, call, handled, gates, race, bad, lst>>
+Change(k, d) ==
+  /\ EnvOK /\ budget.chg < MaxChanges /\ CanChange(k, d)
+  /\ DoChange(k, d)
+  /\ UNCHANGED <<told, now, orph, cbs, sess, lsub, rsub, usub, pun, chan, nq, hnd, cache, cgen, call, handled, gates, race, bad, lst>>
 
 \* the change made at an instant at which a timer is due: it interleaves with TimerFire / CallbackRun
 RaceChange ==
-  /\ race # "" /\ SrvOK
-  /\ DoChange(race)
-  /\ race' = ""
-  /\ UNCHANGED <<now, orph, cbs, sess, lsub, rsub, usub, pun, chan, nq, hnd, cache, cgen, call, handled, gates, bad, lst>>
+  /\ race # <<>> /\ SrvOK
+  /\ DoChange(race[1], race[2])
+  /\ race' = <<>>
+  /\ UNCHANGED <<told, now, orph, cbs, sess, lsub, rsub, usub, pun, chan, nq, hnd, cache, cgen, call, handled, gates, bad, lst>>
 
 TimerFire(n) ==
   /\ SrvOK /\ ref[n] = "armed" /\ refDue[n] <= now
   /\ ref' = [ref EXCEPT ![n] = "idle"]
   /\ refDue' = [refDue EXCEPT ![n] = 0]
   /\ cbs' = [cbs EXCEPT ![n] = @ + 1]
-  /\ UNCHANGED <<now, ver, orph, sess, lsub, rsub, usub, pun, chan, nq, hnd, cache, cgen, call, handled, gates, race, budget, ent, got, bad, lst>>
+  /\ UNCHANGED <<size, told, now, ver, orph, sess, lsub, rsub, usub, pun, chan, nq, hnd, cache, cgen, call, handled, gates, race, budget, ent, got, bad, lst>>
 
 OrphFire(n) ==
   /\ SrvOK
@@ -230,7 +296,7 @@ OrphFire(n) ==
         /\ orph[n][d] > 0 /\ d <= now
         /\ orph' = [orph EXCEPT ![n][d] = @ - 1]
   /\ cbs' = [cbs EXCEPT ![n] = @ + 1]
-  /\ UNCHANGED <<now, ver, ref, refDue, sess, lsub, rsub, usub, pun, chan, nq, hnd, cache, cgen, call, handled, gates, race, budget, ent, got, bad, lst>>
+  /\ UNCHANGED <<size, told, now, ver, ref, refDue, sess, lsub, rsub, usub, pun, chan, nq, hnd, cache, cgen, call, handled, gates, race, budget, ent, got, bad, lst>>
 
 NMsg(t) == [t |-> "n", topic |-> t, snap |-> ver, slot |-> 0, val |-> 0]
 
@@ -242,9 +308,9 @@ CallbackRun(n) ==
   /\ refDue' = [refDue EXCEPT ![n] = 0]
   /\ orph' = IF ref[n] = "armed" THEN [orph EXCEPT ![n][refDue[n]] = @ + 1] ELSE orph
   /\ chan' = [s \in Sessions |-> IF s \in R THEN Append(chan[s], NMsg(n)) ELSE chan[s]]
-  /\ bad' = bad \cup (IF \E s \in R : ~EntLC(s, n) THEN {"OnlyEntitled"} ELSE {})
+  /\ bad' = bad \cup (IF \E s \in R : ~MaySend(s, n) THEN {"OnlyEntitled"} ELSE {})
                 \cup (IF ~CapOn(n) /\ R # {} THEN {"NoneWhenDisabled"} ELSE {})
-  /\ UNCHANGED <<now, ver, sess, lsub, rsub, usub, pun, nq, hnd, cache, cgen, call, handled, gates, race, budget, ent, got, lst>>
+  /\ UNCHANGED <<size, told, now, ver, sess, lsub, rsub, usub, pun, nq, hnd, cache, cgen, call, handled, gates, race, budget, ent, got, lst>>
 
 \* server: ResourceUpdated(u) — the content changed and the server author says so
 Updated(u) ==
@@ -259,19 +325,21 @@ Updated(u) ==
   /\ bad' = bad \cup (IF {s \in Sessions : EntUp(s, u)} \subseteq R
                            /\ R \subseteq {s \in Sessions : EntUp(s, u) \/ <<s, u>> \in pun \/ Pending(s, u)}
                         THEN {} ELSE {"UpdatedExactlySubscribers"})
-  /\ UNCHANGED <<now, ref, refDue, orph, cbs, sess, lsub, rsub, usub, pun, nq, hnd, cache, cgen, call, handled, gates, race, ent, got, lst>>
+  /\ UNCHANGED <<size, told, now, ref, refDue, orph, cbs, sess, lsub, rsub, usub, pun, nq, hnd, cache, cgen, call, handled, gates, race, ent, got, lst>>
 
 \* ---------------------------------------------------------------------------
 \* sessions
 
 \* Server.Connect + Client.Connect; a modern client opens its subscriptions/listen stream for the
-\* notifications it has handlers for, the server grants those whose capability is on
+\* notifications it has handlers for, the server grants those whose capability it advertises at that moment
+\* (allowedSubscriptions asks Server.capabilities); a legacy session reads the same in the initialize result
 Connect(s) ==
   /\ EnvOK /\ sess[s] = "new"
   /\ sess' = [sess EXCEPT ![s] = "on"]
-  /\ lsub' = IF s \in Modern THEN [n \in Notifs |-> IF n \in Want[s] /\ CapOn(n) THEN lsub[n] \cup {s} ELSE lsub[n]]
+  /\ told' = [told EXCEPT ![s] = [n \in Notifs |-> Adv(n, size)]]
+  /\ lsub' = IF s \in Modern THEN [n \in Notifs |-> IF n \in Want[s] /\ Adv(n, size) THEN lsub[n] \cup {s} ELSE lsub[n]]
              ELSE lsub
-  /\ UNCHANGED <<now, ver, ref, refDue, orph, cbs, rsub, usub, pun, chan, nq, hnd, cache, cgen, call, handled, gates, race, budget, ent, got, bad, lst>>
+  /\ UNCHANGED <<size, now, ver, ref, refDue, orph, cbs, rsub, usub, pun, chan, nq, hnd, cache, cgen, call, handled, gates, race, budget, ent, got, bad, lst>>
 
 \* ClientSession.Close, the server notices and runs disconnect (and the listen handlers' clean-up)
 Close(s) ==
@@ -290,7 +358,8 @@ Close(s) ==
                                                      THEN [call[s][c] EXCEPT !.st = "failed"] ELSE call[s][c]]]
   /\ gates' = {g \in gates : g[2] # s}
   /\ ent' = [ent EXCEPT ![s] = [n \in Notifs |-> FALSE]]
-  /\ UNCHANGED <<now, ver, ref, refDue, orph, cbs, cache, cgen, handled, race, budget, got, bad>>
+  /\ told' = [told EXCEPT ![s] = [n \in Notifs |-> FALSE]]
+  /\ UNCHANGED <<size, now, ver, ref, refDue, orph, cbs, cache, cgen, handled, race, budget, got, bad>>
 
 \* resources/subscribe (legacy) or a subscriptions/listen stream for the URI (modern)
 Subscribe(s, u) ==
@@ -298,7 +367,7 @@ Subscribe(s, u) ==
   /\ ResubRace \/ <<s, u>> \notin pun
   /\ usub' = [usub EXCEPT ![s] = @ \cup {u}]
   /\ rsub' = [rsub EXCEPT ![u] = @ \cup {s}]
-  /\ UNCHANGED <<now, ver, ref, refDue, orph, cbs, sess, lsub, pun, chan, nq, hnd, cache, cgen, call, handled, gates, race, budget, ent, got, bad, lst>>
+  /\ UNCHANGED <<size, told, now, ver, ref, refDue, orph, cbs, sess, lsub, pun, chan, nq, hnd, cache, cgen, call, handled, gates, race, budget, ent, got, bad, lst>>
 
 \* resources/unsubscribe (legacy): the server's handler removes the entry.
 \* Cancellation of the URI's listen stream (modern): ClientSession.Unsubscribe returns at once; the server
@@ -315,7 +384,7 @@ Unsubscribe(s, u) ==
   /\ IF s \in Modern
        THEN pun' = pun \cup {<<s, u>>} /\ UNCHANGED rsub
        ELSE rsub' = [rsub EXCEPT ![u] = @ \ {s}] /\ UNCHANGED pun
-  /\ UNCHANGED <<now, ver, ref, refDue, orph, cbs, sess, lsub, chan, nq, hnd, cache, cgen, call, handled, gates, race, budget, ent, got, bad, lst>>
+  /\ UNCHANGED <<size, told, now, ver, ref, refDue, orph, cbs, sess, lsub, chan, nq, hnd, cache, cgen, call, handled, gates, race, budget, ent, got, bad, lst>>
 
 \* the cancelled listen handler returns: its deferred clean-up deletes resourceSubscriptions[u][s] — whichever
 \* listen stream owns that entry by now.  The list-changed entries of the session belong to its Connect-time
@@ -326,7 +395,7 @@ FinishUnsub(s, u) ==
   /\ pun' = pun \ {<<s, u>>}
   /\ rsub' = [rsub EXCEPT ![u] = @ \ {s}]
   /\ lsub' = IF ListenOwns THEN lsub ELSE [n \in Notifs |-> lsub[n] \ {s}]
-  /\ UNCHANGED <<now, ver, ref, refDue, orph, cbs, sess, usub, chan, nq, hnd, cache, cgen, call, handled, gates, race, budget, ent, got, bad, lst>>
+  /\ UNCHANGED <<size, told, now, ver, ref, refDue, orph, cbs, sess, usub, chan, nq, hnd, cache, cgen, call, handled, gates, race, budget, ent, got, bad, lst>>
 
 \* ONE subscriptions/listen request of a modern session naming the URIs q, in this order (ClientSession.Subscribe only
 \* ever sends single-URI requests; the protocol allows any number).  The server's SubscribeHandler is user code: which of
@@ -337,7 +406,7 @@ Listen(s, q, rej) ==
   /\ ResubRace \/ \A u \in Range(q) : <<s, u>> \notin pun
   /\ lst' = [lst EXCEPT ![s] = [st |-> "run", uris |-> q, rej |-> rej, n |-> 0]]
   /\ budget' = [budget EXCEPT !.lst = @ + 1]
-  /\ UNCHANGED <<now, ver, ref, refDue, orph, cbs, sess, lsub, rsub, usub, pun, chan, nq, hnd, cache, cgen, call, handled, gates, race, ent, got, bad>>
+  /\ UNCHANGED <<size, told, now, ver, ref, refDue, orph, cbs, sess, lsub, rsub, usub, pun, chan, nq, hnd, cache, cgen, call, handled, gates, race, ent, got, bad>>
 
 \* one turn of the loop in Server.subscriptionsListen (1245-1263)
 ListenStep(s) ==
@@ -358,7 +427,7 @@ ListenStep(s) ==
               ELSE /\ lst' = [lst EXCEPT ![s].n = @ + 1]
                    /\ rsub' = [rsub EXCEPT ![u] = @ \cup {s}]
                    /\ UNCHANGED <<usub, pun>>
-  /\ UNCHANGED <<now, ver, ref, refDue, orph, cbs, sess, lsub, chan, nq, hnd, cache, cgen, call, handled, gates, race, budget, ent, got, bad>>
+  /\ UNCHANGED <<size, told, now, ver, ref, refDue, orph, cbs, sess, lsub, chan, nq, hnd, cache, cgen, call, handled, gates, race, budget, ent, got, bad>>
 
 \* the client cancels the several-URI stream: every URI of it is given up; the server's deferred clean-up runs per URI
 Unlisten(s) ==
@@ -366,7 +435,7 @@ Unlisten(s) ==
   /\ usub' = [usub EXCEPT ![s] = @ \ Range(lst[s].uris)]
   /\ pun' = pun \cup {<<s, u>> : u \in Range(lst[s].uris)}
   /\ lst' = [lst EXCEPT ![s] = NoListen]
-  /\ UNCHANGED <<now, ver, ref, refDue, orph, cbs, sess, lsub, rsub, chan, nq, hnd, cache, cgen, call, handled, gates, race, budget, ent, got, bad>>
+  /\ UNCHANGED <<size, told, now, ver, ref, refDue, orph, cbs, sess, lsub, rsub, chan, nq, hnd, cache, cgen, call, handled, gates, race, budget, ent, got, bad>>
 
 \* ---------------------------------------------------------------------------
 \* client: list / read calls and the result cache
@@ -388,13 +457,13 @@ ListStart(s, c, i) ==
   /\ LET w == Walk(s, i, 1, NoVal) IN
        call' = [call EXCEPT ![s][c] = [st |-> w.st, item |-> i, page |-> w.page, gen |-> w.gen, val |-> w.val, hs |-> handled[s][i],
                                        hit |-> (w.st = "done")]]
-  /\ UNCHANGED <<now, ver, ref, refDue, orph, cbs, sess, lsub, rsub, usub, pun, chan, nq, hnd, cache, cgen, handled, gates, race, budget, ent, got, bad, lst>>
+  /\ UNCHANGED <<size, told, now, ver, ref, refDue, orph, cbs, sess, lsub, rsub, usub, pun, chan, nq, hnd, cache, cgen, handled, gates, race, budget, ent, got, bad, lst>>
 
 ServeList(s, c) ==
   /\ call[s][c].st = "req"
   /\ call' = [call EXCEPT ![s][c].st = "sent"]
   /\ chan' = [chan EXCEPT ![s] = Append(@, [t |-> "r", topic |-> "", snap |-> ver, slot |-> c, val |-> ver[call[s][c].item]])]
-  /\ UNCHANGED <<now, ver, ref, refDue, orph, cbs, sess, lsub, rsub, usub, pun, nq, hnd, cache, cgen, handled, gates, race, budget, ent, got, bad, lst>>
+  /\ UNCHANGED <<size, told, now, ver, ref, refDue, orph, cbs, sess, lsub, rsub, usub, pun, nq, hnd, cache, cgen, handled, gates, race, budget, ent, got, bad, lst>>
 
 \* the client's reader takes the next message off the wire: a notification is queued for the in-order
 \* dispatcher, a response is handed to its caller (ResponseArrives)
@@ -407,7 +476,7 @@ Read(s) ==
                  /\ UNCHANGED call
             ELSE /\ call' = [call EXCEPT ![s][m.slot] = [@ EXCEPT !.st = "arrived", !.val[@.page] = m.val]]
                  /\ UNCHANGED nq
-  /\ UNCHANGED <<now, ver, ref, refDue, orph, cbs, sess, lsub, rsub, usub, pun, hnd, cache, cgen, handled, gates, race, budget, ent, got, bad, lst>>
+  /\ UNCHANGED <<size, told, now, ver, ref, refDue, orph, cbs, sess, lsub, rsub, usub, pun, hnd, cache, cgen, handled, gates, race, budget, ent, got, bad, lst>>
 
 \* the page is put into the cache under its cursor after the call returned from the middleware chain; the walk
 \* then goes on with the next page (pages other than this one are as they were)
@@ -420,7 +489,16 @@ CachePut(s, c) ==
   /\ cache' = IF s \in Modern /\ (~GenCheck \/ cgen[s][k.item] = k.gen)
                THEN [cache EXCEPT ![s][k.item][k.page] = k.val[k.page]] ELSE cache
   /\ UNCHANGED cgen
-  /\ UNCHANGED <<now, ver, ref, refDue, orph, cbs, sess, lsub, rsub, usub, pun, chan, nq, hnd, handled, gates, race, budget, ent, got, bad, lst>>
+  /\ UNCHANGED <<size, told, now, ver, ref, refDue, orph, cbs, sess, lsub, rsub, usub, pun, chan, nq, hnd, handled, gates, race, budget, ent, got, bad, lst>>
+
+\* time passes beyond the ttl of everything the session has cached (no debounce timer is armed: nothing else happens
+\* meanwhile): the entries are gone for the next lookup, the generations stay
+Expire(s) ==
+  /\ EnvOK /\ TTLPos /\ sess[s] = "on" /\ s \in Modern
+  /\ \A n \in Notifs : ~TimerArmed(n) /\ cbs[n] = 0
+  /\ \E i \in Items : \E p \in PagesOf(i) : cache[s][i][p] >= 0
+  /\ cache' = [cache EXCEPT ![s] = [i \in Items |-> NoVal]]
+  /\ UNCHANGED <<size, told, now, ver, ref, refDue, orph, cbs, sess, lsub, rsub, usub, pun, chan, nq, hnd, cgen, call, handled, gates, race, budget, ent, got, bad, lst>>
 
 \* the in-order dispatcher takes the next notification and runs the SDK's handler: first the cache
 \* entries the notification is about are dropped ...
@@ -430,8 +508,10 @@ Invalidate(s) ==
   /\ nq' = [nq EXCEPT ![s] = Tail(@)]
   /\ cache' = [cache EXCEPT ![s] = [i \in Items |-> IF i \in ItemsOf(Head(nq[s]).topic) THEN NoVal ELSE @[i]]]
   \* invalidate / invalidateKey bump the generation of the method cache (resources/read: one cache for all URIs)
-  /\ cgen' = [cgen EXCEPT ![s] = [i \in Items |-> IF \E j \in ItemsOf(Head(nq[s]).topic) : SameCache(i, j) THEN @[i] + 1 ELSE @[i]]]
-  /\ UNCHANGED <<now, ver, ref, refDue, orph, cbs, sess, lsub, rsub, usub, pun, chan, call, handled, gates, race, budget, ent, got, bad, lst>>
+  /\ cgen' = [cgen EXCEPT ![s] = [i \in Items |->
+                 IF \E j \in ItemsOf(Head(nq[s]).topic) : SameCache(i, j) /\ (ColdBump \/ \E p \in PagesOf(j) : cache[s][j][p] >= 0)
+                   THEN @[i] + 1 ELSE @[i]]]
+  /\ UNCHANGED <<size, told, now, ver, ref, refDue, orph, cbs, sess, lsub, rsub, usub, pun, chan, call, handled, gates, race, budget, ent, got, bad, lst>>
 
 \* ... then the user's handler runs
 UserHandler(s) ==
@@ -442,7 +522,7 @@ UserHandler(s) ==
   /\ handled' = [handled EXCEPT ![s] = [i \in Items |-> IF i \in ItemsOf(t) THEN Max(@[i], m.snap[i]) ELSE @[i]]]
   /\ got' = IF t \in Notifs /\ \A k \in KindsOf(t) : m.snap[k] = ver[k]
               THEN [got EXCEPT ![s][t] = TRUE] ELSE got
-  /\ UNCHANGED <<now, ver, ref, refDue, orph, cbs, sess, lsub, rsub, usub, pun, chan, nq, cache, cgen, call, gates, race, budget, ent, bad, lst>>
+  /\ UNCHANGED <<size, told, now, ver, ref, refDue, orph, cbs, sess, lsub, rsub, usub, pun, chan, nq, cache, cgen, call, gates, race, budget, ent, bad, lst>>
 
 \* ---------------------------------------------------------------------------
 \* environment: time and gates
@@ -451,26 +531,26 @@ Tick ==
   /\ EnvOK /\ now < MaxTime
   /\ \E n \in Notifs : TimerArmed(n)
   /\ now' = now + 1
-  /\ UNCHANGED <<ver, ref, refDue, orph, cbs, sess, lsub, rsub, usub, pun, chan, nq, hnd, cache, cgen, call, handled, gates, race, budget, ent, got, bad, lst>>
+  /\ UNCHANGED <<size, told, ver, ref, refDue, orph, cbs, sess, lsub, rsub, usub, pun, chan, nq, hnd, cache, cgen, call, handled, gates, race, budget, ent, got, bad, lst>>
 
 \* advance to an instant at which a timer is due and change a feature at that very instant
-TickRace(k) ==
-  /\ Stepwise /\ EnvOK /\ now < MaxTime /\ budget.chg < MaxChanges
+TickRace(k, d) ==
+  /\ Stepwise /\ EnvOK /\ now < MaxTime /\ budget.chg < MaxChanges /\ CanChange(k, d)
   /\ \E n \in Notifs : (ref[n] = "armed" /\ refDue[n] = now + 1) \/ orph[n][now + 1] > 0
   /\ now' = now + 1
-  /\ race' = k
-  /\ UNCHANGED <<ver, ref, refDue, orph, cbs, sess, lsub, rsub, usub, pun, chan, nq, hnd, cache, cgen, call, handled, gates, budget, ent, got, bad, lst>>
+  /\ race' = <<k, d>>
+  /\ UNCHANGED <<size, told, ver, ref, refDue, orph, cbs, sess, lsub, rsub, usub, pun, chan, nq, hnd, cache, cgen, call, handled, gates, budget, ent, got, bad, lst>>
 
 Hold(g, s) ==
   /\ Gates /\ EnvOK /\ sess[s] = "on" /\ <<g, s>> \notin gates
   /\ g = "unsub" => s \in Modern
   /\ gates' = gates \cup {<<g, s>>}
-  /\ UNCHANGED <<now, ver, ref, refDue, orph, cbs, sess, lsub, rsub, usub, pun, chan, nq, hnd, cache, cgen, call, handled, race, budget, ent, got, bad, lst>>
+  /\ UNCHANGED <<size, told, now, ver, ref, refDue, orph, cbs, sess, lsub, rsub, usub, pun, chan, nq, hnd, cache, cgen, call, handled, race, budget, ent, got, bad, lst>>
 
 Release(g, s) ==
   /\ EnvOK /\ <<g, s>> \in gates
   /\ gates' = gates \ {<<g, s>>}
-  /\ UNCHANGED <<now, ver, ref, refDue, orph, cbs, sess, lsub, rsub, usub, pun, chan, nq, hnd, cache, cgen, call, handled, race, budget, ent, got, bad, lst>>
+  /\ UNCHANGED <<size, told, now, ver, ref, refDue, orph, cbs, sess, lsub, rsub, usub, pun, chan, nq, hnd, cache, cgen, call, handled, race, budget, ent, got, bad, lst>>
 
 SdkNext ==
   \/ \E n \in Notifs : TimerFire(n) \/ OrphFire(n) \/ CallbackRun(n)
@@ -481,13 +561,14 @@ SdkNext ==
   \/ \E s \in Sessions, c \in Slots : ServeList(s, c) \/ CachePut(s, c)
 
 EnvNext ==
-  \/ \E k \in Kinds : Change(k) \/ TickRace(k)
+  \/ \E k \in Kinds, d \in Dirs : Change(k, d) \/ TickRace(k, d)
   \/ \E u \in Uris : Updated(u)
   \/ \E s \in Sessions : Connect(s) \/ Close(s)
   \/ \E s \in Sessions, u \in Uris : Subscribe(s, u) \/ Unsubscribe(s, u)
   \/ \E s \in Listeners, q \in UriSeqs, rej \in SUBSET Uris : Listen(s, q, rej)
   \/ \E s \in Listeners : Unlisten(s)
   \/ \E s \in Sessions, c \in Slots, i \in Items : ListStart(s, c, i)
+  \/ \E s \in Sessions : Expire(s)
   \/ Tick
   \/ \E g \in GateNames, s \in Sessions : Hold(g, s) \/ Release(g, s)
 
@@ -498,7 +579,7 @@ Spec == Init /\ [][Next]_vars
 \* the property
 
 Quiescent ==
-  /\ race = "" /\ gates = {} /\ pun = {}
+  /\ race = <<>> /\ gates = {} /\ pun = {}
   /\ \A s \in Sessions : lst[s].st # "run"
   /\ \A n \in Notifs : ~TimerArmed(n) /\ cbs[n] = 0
   /\ \A s \in Sessions : ~InFlight(s)
@@ -520,6 +601,8 @@ ForgottenOnClose == \A s \in Sessions : sess[s] = "closed" =>
 
 TypeOK ==
   /\ now \in 0..MaxTime
+  /\ size \in [Kinds -> 0..MaxSize]
+  /\ \A s \in Sessions, n \in Notifs : (told[s][n] => sess[s] = "on" /\ CapOn(n)) /\ (s \in lsub[n] => told[s][n])
   /\ \A n \in Notifs : ref[n] \in {"nil", "armed", "idle"} /\ cbs[n] \in 0..(MaxChanges + 1)
   /\ \A s \in Sessions : sess[s] \in {"new", "on", "closed"} /\ Len(chan[s]) <= MaxChanges + MaxUpdates + MaxCalls + 2
   /\ \A n \in Notifs : lsub[n] \subseteq Modern
